@@ -53,6 +53,12 @@ def pick_vars(rng, lo=1, hi=4):
         # ('X' < 'X a' < 'X a lag(n=1)' < 'X lag(n=1)')
         i, j = rng.sample(range(n), 2)
         vs[j] = vs[i] + rng.choice([' a', ' index', ' 2'])
+    if n >= 4 and rng.random() < 0.35:
+        # four names whose pairs collide when joined with a separator: (a, b+sep+c) and (a+sep+b, c) spell the same text
+        # (keys like f'{u}_{v}', f'{u} {v}', f'{u}->{v}' are the classic way to lose one of two pairs)
+        sep = rng.choice(['_', ' ', '-', ',', '->', '|', ':', '.', '__', ', '])
+        a, b, c = rng.sample(['t', 'u', 'v', 'x', 'y', 'temp', 'out', 'flow', '1', 'k2'], 3)
+        vs = [a, b + sep + c, a + sep + b, c] + vs[4:]
     out = []
     for v in vs:
         if v not in out:
